@@ -217,11 +217,17 @@ def run_chomsky(case):
 def run_notebook(case):
     path = os.path.join(NOTEBOOKS, "with-answers", case["notebook"])
     nb = json.load(open(path, encoding="utf8"))
+    checks = exec_notebook(nb, NOTEBOOKS, "shipped_notebook_" + case["notebook"], case["notebook"])
+    return {"nt": checks >= 1, "cls": ["shipped_notebook"], "out": {"check_cells": checks}}
+
+
+def exec_notebook(nb, cwd, bucket, label):
+    """Executes the code cells in-process; every checker-call cell must print OK.  Returns the number of such cells."""
     env = {}
     old = os.getcwd()
     checks = 0
     try:
-        os.chdir(NOTEBOOKS)
+        os.chdir(cwd)
         for c in nb["cells"]:
             if c["cell_type"] != "code":
                 continue
@@ -241,10 +247,61 @@ def run_notebook(case):
                 checks += 1
                 lines = [l for l in buf.getvalue().split("\n") if l.strip()]
                 if not lines or lines[0].strip() != "OK":
-                    raise Fail("shipped_notebook_" + case["notebook"], "cell %r of %s prints %r" % (last, case["notebook"], lines[:2]))
+                    raise Fail(bucket, "cell %r of %s prints %r" % (last, label, lines[:2]))
     finally:
         os.chdir(old)
-    return {"nt": checks >= 1, "cls": ["shipped_notebook"], "out": {"check_cells": checks}}
+    return checks
+
+
+TEMPLATE_OF = {"dfa_lang": "dfa-for-language.ipynb", "nfa_lang": "nfa-for-language.ipynb", "dfa_minimal": "dfa-minimal.ipynb", "nfa2dfa": "nfa-to-dfa.ipynb"}
+
+
+def run_generated(case):
+    """Several exercises go through the notebook generator one after the other in one process (parse_paragraph -> make_notebook with answers), as `make_notebook.py` does for
+    a batch file; every generated notebook is then executed: its checker-call cells must print OK."""
+    MN = make_notebook()
+    total = 0
+    with workdir() as wd:
+        for i, ex in enumerate(case["exercises"]):
+            kind = "dfa" if ex["template"] in ("dfa_lang", "dfa_minimal") else "nfa"
+            text = render(kind, ex["spec"], ex.get("layout"))
+            if ex.get("file_tags"):
+                text = "".join("%%%% %s = %s\n" % kv for kv in ex["file_tags"]) + text
+            ref = wd.write("ref%d.%s" % (i, kind), text)
+            par = ["templatefile = " + os.path.join(NOTEBOOKS, "templates", TEMPLATE_OF[ex["template"]]), "inputfile = " + ref, "name = ex%d" % i,
+                   "question = Give an automaton", "selected_word = a"] + ["%s = %s" % kv for kv in ex.get("paragraph_tags", [])]
+            out = os.path.join(wd.d, "ex%d.ipynb" % i)
+            buf = io.StringIO()
+            with contextlib.redirect_stdout(buf):
+                settings = lib(MN.parse_paragraph, "\n".join(par))
+                lib(MN.make_notebook, out, settings, True)
+            nb = json.load(open(out, encoding="utf8"))
+            total += exec_notebook(nb, wd.d, "generated_notebook_" + ex["template"], "the notebook generated for exercise %d of %r" % (i, [e["template"] for e in case["exercises"]]))
+    return {"nt": len(case["exercises"]) >= 2 and total >= 2, "cls": sorted({e["template"] for e in case["exercises"]}), "out": {"check_cells": total}}
+
+
+@st.composite
+def generated_cases(draw, tier):
+    exs = []
+    for _ in range(draw(st.integers(2, 3))):
+        t = draw(st.sampled_from(["dfa_lang", "nfa_lang", "dfa_lang", "nfa_lang", "dfa_minimal", "nfa2dfa"]))
+        kind = "dfa" if t in ("dfa_lang", "dfa_minimal") else "nfa"
+        if kind == "dfa":
+            spec = draw(G.dfa_specs(max_states=4, min_sigma=1, max_sigma=2, pool=G.POOL[:10]))
+        else:
+            spec = draw(G.nfa_specs(max_states=4, min_sigma=1, max_sigma=2, eps_choices=["ε", "_"], pool=G.POOL[:10]))
+        ex = {"template": t, "spec": spec, "file_tags": [], "paragraph_tags": []}
+        if t.endswith("_lang"):
+            n = len(spec["Q"])
+            where = draw(st.sampled_from(["none", "none", "file", "paragraph"]))
+            if where != "none":
+                ex["file_tags" if where == "file" else "paragraph_tags"].append(("states", str(n + draw(st.integers(0, 2)))))    # a limit the reference itself satisfies
+            if draw(st.booleans()):
+                ex["file_tags" if draw(st.booleans()) else "paragraph_tags"].append(("length", str(draw(st.sampled_from([3, 4, 5])))))
+            else:
+                ex["paragraph_tags"].append(("length", "4"))
+        exs.append(ex)
+    return {"exercises": exs}
 
 
 # ---------------- generators ----------------
@@ -335,7 +392,17 @@ def derivation_cases(draw, tier):
 
 @st.composite
 def chomsky_cases(draw, tier):
-    spec = draw(nondegenerate_cfg(max_vars=4))
+    if draw(st.integers(0, 3)) == 0:
+        # every rule already has Chomsky shape, but the grammar is not in normal form (nullable non-start variables, start variable on a right-hand side)
+        spec = draw(GC.pseudo_cnf_specs(max_vars=3))
+        for A in spec["V"]:
+            if not any(B == A and len(rhs) == 1 for B, rhs in spec["R"]):
+                spec["R"].append([A, [spec["T"][draw(st.integers(0, 1))]]])
+        spec["R"] = [r for r in spec["R"] if r[0] == spec["S"]] + [r for r in spec["R"] if r[0] != spec["S"]]
+        spec["T"] = sorted({x for _, rhs in spec["R"] for x in rhs if x not in spec["V"]})
+        spec["_eps"] = draw(st.sampled_from(["ε", "_"]))
+    else:
+        spec = draw(nondegenerate_cfg(max_vars=4))
     S0 = draw(st.sampled_from([x for x in ["T", "Z", "S", "X", "Y", "W"] if x not in spec["V"]]))
     return {"cfg": spec, "start": S0, "n": draw(st.sampled_from([3, 4]))}
 
@@ -375,6 +442,10 @@ CLAUSES = [
     Clause("cyk", cases_with_prelude(cyk_cases), with_prelude(run_cyk), quick=400, thorough=3000, rule=R0 + "CNF grammars in simple format x words of length 1-5"),
     Clause("derivation", cases_with_prelude(derivation_cases), with_prelude(run_derivation), quick=400, thorough=3000, rule=R0 + "CNF grammars x generated words x {leftmost, rightmost, any}"),
     Clause("chomsky", cases_with_prelude(chomsky_cases), with_prelude(run_chomsky), quick=200, thorough=1500, rule=R0 + "non-degenerate simple grammars x phases 1..5 with a fresh start-variable name; non-trivial: >= 3 phases change the grammar"),
+    Clause("generated_notebooks", generated_cases, run_generated, quick=120, thorough=1000,
+           rule="2-3 exercises (DFA/NFA for a language, minimal DFA, NFA to DFA) pass through notebooks/make_notebook.py one after the other in one process - reference file with optional "
+                "'%% key = value' tags, paragraph with optional tags, parse_paragraph, make_notebook with answers - and every generated notebook is executed: its checker cells print OK; "
+                "non-trivial: >= 2 exercises with a checker cell each"),
     Clause("shipped_notebooks", None, run_notebook, quick=0, thorough=0, exhaustive=ex_notebooks, rule="every check cell of the shipped with-answers notebooks prints OK when executed in-process"),
 ]
 KNOWN_PREDICATES = {}
